@@ -218,39 +218,110 @@ def _guards(body):
     return out
 
 
-def _class_facts(cls):
-    """How a class builds `.adjoint` and `.derivative`, and the statement of `_call` that
-    calls finite_diff (checked as text of the AST)."""
-    facts = {}
+class _StripRaise(ast.NodeTransformer):
+    """`raise X('message'.format(...))` -> `raise X()`: the wording of messages is not pinned."""
+
+    def visit_Raise(self, node):
+        exc = node.exc
+        if isinstance(exc, ast.Call):
+            exc = ast.Call(func=exc.func, args=[], keywords=[])
+        return ast.copy_location(ast.Raise(exc=exc, cause=None), node)
+
+
+def _norm(st):
+    import copy
+    return _u(ast.fix_missing_locations(_StripRaise().visit(copy.deepcopy(st))))
+
+
+LINEAR_RULE = "linear = not (pad_mode == 'constant' and pad_const != 0)"
+ADJ_GUARD = 'if not self.is_linear:\n    raise ValueError()'
+PINS_FILE = os.path.join(os.path.dirname(os.path.abspath(__file__)), 'finite_diff_pins.json')
+CLASSES = {'PartialDerivative': 'pd', 'Gradient': 'grad', 'Divergence': 'div', 'Laplacian': 'lap'}
+
+
+def _class_pins(cls):
+    """Normalised text of __init__, _call, adjoint, derivative of one operator class, with the
+    two data-shaped parts taken OUT of the text and returned as flags:
+      affine_aware : __init__ computes LINEAR_RULE and passes linear=linear (True) /
+                     passes linear=True (False);
+      adj_guarded  : adjoint starts with `if not self.is_linear: raise ValueError(...)`."""
+    pins, flags = {}, {}
     for node in cls.body:
-        if isinstance(node, ast.FunctionDef) and node.name in ('adjoint', 'derivative'):
-            body = _strip_doc(node.body)
-            facts[node.name] = [_u(s) for s in body]
-        if isinstance(node, ast.FunctionDef) and node.name == '_call':
-            facts['_call'] = [_u(s) for s in _strip_doc(node.body) if 'finite_diff(' in _u(s)]
-    return facts
+        if not isinstance(node, ast.FunctionDef) or \
+                node.name not in ('__init__', '_call', 'adjoint', 'derivative'):
+            continue
+        body = [_norm(s) for s in _strip_doc(node.body)]
+        body = ['<refused pad modes: regenerated>' if b.startswith('if pad_mode in (') else b
+                for b in body]
+        if node.name == '__init__':
+            has_rule = LINEAR_RULE in body
+            body = [b for b in body if b != LINEAR_RULE]
+            sup = [i for i, b in enumerate(body) if b.startswith('super(') and '.__init__(' in b]
+            if len(sup) != 1:
+                raise ExtractionError(cls.name + '.__init__: expected one super().__init__ call')
+            call = body[sup[0]]
+            if any(b.startswith('linear =') or b.startswith('linear=') for b in body):
+                raise ExtractionError(cls.name + '.__init__: unknown computation of `linear`')
+            if has_rule and call.endswith(', linear=linear)'):
+                flags['affine_aware'] = True
+            elif not has_rule and call.endswith(', linear=True)'):
+                flags['affine_aware'] = False
+            else:
+                raise ExtractionError(cls.name + '.__init__: cannot read the linear flag: ' + call)
+            body[sup[0]] = call[:call.rindex(', linear=')] + ', linear=<FLAG>)'
+        if node.name == 'adjoint':
+            flags['adj_guarded'] = bool(body) and body[0] == ADJ_GUARD
+            if flags['adj_guarded']:
+                body = body[1:]
+        pins[node.name] = body
+    if set(pins) != {'__init__', '_call', 'adjoint', 'derivative'} or len(flags) != 2:
+        raise ExtractionError('class {}: __init__/_call/adjoint/derivative not all found'
+                              .format(cls.name))
+    return pins, flags
 
 
-WANT_CLASS = {
-    'PartialDerivative': {
-        '_call': ['with writable_array(out) as out_arr:\n    finite_diff(x.asarray(), axis=self.axis, dx=self.dx, method=self.method, pad_mode=self.pad_mode, pad_const=self.pad_const, out=out_arr)'],
-        'adjoint': ["if not self.is_linear:\n    raise ValueError('operator with nonzero pad_const ({}) is not linear and has no adjoint'.format(self.pad_const))",
-                    'return -PartialDerivative(self.range, self.axis, self.domain, _ADJ_METHOD[self.method], _ADJ_PADDING[self.pad_mode], self.pad_const)'],
-        'derivative': ["if self.pad_mode == 'constant' and self.pad_const != 0:\n    return PartialDerivative(self.domain, self.axis, self.range, self.method, self.pad_mode, 0)\nelse:\n    return self"]},
-    'Gradient': {
-        '_call': ['for axis in range(ndim):\n    with writable_array(out[axis]) as out_arr:\n        finite_diff(x_arr, axis=axis, dx=dx[axis], method=self.method, pad_mode=self.pad_mode, pad_const=self.pad_const, out=out_arr)'],
-        'adjoint': ["if not self.is_linear:\n    raise ValueError('operator with nonzero pad_const ({}) is not linear and has no adjoint'.format(self.pad_const))",
-                    'return -Divergence(domain=self.range, range=self.domain, method=_ADJ_METHOD[self.method], pad_mode=_ADJ_PADDING[self.pad_mode], pad_const=self.pad_const)'],
-        'derivative': ["if self.pad_mode == 'constant' and self.pad_const != 0:\n    return Gradient(self.domain, self.range, self.method, pad_mode=self.pad_mode, pad_const=0)\nelse:\n    return self"]},
-    'Divergence': {
-        '_call': ['with writable_array(out) as out_arr:\n    for axis in range(ndim):\n        finite_diff(x[axis], axis=axis, dx=dx[axis], method=self.method, pad_mode=self.pad_mode, pad_const=self.pad_const, out=tmp)\n        if axis == 0:\n            out_arr[:] = tmp\n        else:\n            out_arr += tmp'],
-        'adjoint': ["if not self.is_linear:\n    raise ValueError('operator with nonzero pad_const ({}) is not linear and has no adjoint'.format(self.pad_const))",
-                    'return -Gradient(self.range, self.domain, method=_ADJ_METHOD[self.method], pad_mode=_ADJ_PADDING[self.pad_mode])'],
-        'derivative': ["if self.pad_mode == 'constant' and self.pad_const != 0:\n    return Divergence(self.domain, self.range, self.method, pad_mode=self.pad_mode, pad_const=0)\nelse:\n    return self"]},
-    'Laplacian': {
-        'adjoint': ['return Laplacian(self.range, self.domain, pad_mode=self.pad_mode, pad_const=0)'],
-        'derivative': ["if self.pad_mode == 'constant' and self.pad_const != 0:\n    return Laplacian(self.domain, self.range, pad_mode=self.pad_mode, pad_const=0)\nelse:\n    return self"]},
-}
+def current_pins(tree):
+    """Everything of diff_ops.py that the Lean model mirrors BY HAND (not regenerated): the
+    prologue and epilogue of finite_diff and the four operator classes, as normalised text."""
+    fn = [n for n in tree.body if isinstance(n, ast.FunctionDef) and n.name == 'finite_diff']
+    classes = {n.name: n for n in tree.body if isinstance(n, ast.ClassDef)}
+    if len(fn) != 1 or not set(CLASSES) <= set(classes):
+        raise ExtractionError('finite_diff or one of the four classes not found')
+    body = _strip_doc(fn[0].body)
+    keep = []
+    for st in body:
+        if isinstance(st, ast.If) and isinstance(st.test, ast.Compare) and \
+                _u(st.test.left) in ('method', 'pad_mode') and isinstance(st.test.ops[0], ast.Eq):
+            keep.append('<chain on {}: regenerated>'.format(_u(st.test.left)))
+        elif isinstance(st, ast.If) and 'f_arr.shape[axis] <' in _u(st.test):
+            keep.append('<size guard: regenerated>')
+        else:
+            keep.append(_norm(st))
+    pins = {'finite_diff': keep}
+    flags = {}
+    for name in CLASSES:
+        pins[name], flags[name] = _class_pins(classes[name])
+    return pins, flags
+
+
+def check_pins(tree):
+    import json
+    pins, flags = current_pins(tree)
+    with open(PINS_FILE) as f:
+        want = json.load(f)
+    for key in want:
+        if pins.get(key) != want[key]:
+            a, b = want[key], pins.get(key)
+            if isinstance(a, dict):
+                sub = [k for k in a if a[k] != (b or {}).get(k)]
+                detail = '{}.{}: {!r}'.format(key, sub[0], (b or {}).get(sub[0]))
+            else:
+                diff = [i for i in range(max(len(a), len(b))) if i >= len(a) or i >= len(b)
+                        or a[i] != b[i]]
+                detail = '{} statement {}: {!r}'.format(key, diff[0],
+                                                        b[diff[0]] if diff[0] < len(b) else None)
+            raise ExtractionError('hand-modelled code changed (pinned text differs): ' + detail[:300])
+    return flags
 
 
 def _laplacian_rejected(cls):
@@ -381,15 +452,7 @@ def extract_data(repo=None):
             leaf = _leaf(pbody)
             for m in METHODS:
                 leaves[(m, p)] = leaf
-    cls_facts = {}
-    for name, want in WANT_CLASS.items():
-        if name not in classes:
-            raise ExtractionError('class {} not found'.format(name))
-        got = _class_facts(classes[name])
-        for k, v in want.items():
-            if got.get(k) != v:
-                raise ExtractionError('{}.{} changed: {!r}'.format(name, k, got.get(k)))
-        cls_facts[name] = got
+    flags = check_pins(tree)
     lap_rejected = _laplacian_rejected(classes['Laplacian'])
     dens = [q.denominator for b in bands.values() for q in b.values()]
     for r0, rn, accs in leaves.values():
@@ -398,7 +461,7 @@ def extract_data(repo=None):
             dens += [q.denominator for q in e.values()]
     den = lcm(2, *dens)
     return dict(methods=methods, pads=pads, adj_m=adj_m, adj_p=adj_p, guards=guards, bands=bands,
-                leaves=leaves, den=den, lap_rejected=lap_rejected)
+                leaves=leaves, den=den, lap_rejected=lap_rejected, flags=flags)
 
 
 def _terms(e, den):
@@ -438,6 +501,14 @@ def render(d):
           'def guards : List (Nat × Option Pad) := [{}]'.format(', '.join(
               '({}, {})'.format(k, 'none' if p is None else 'some .' + PADS[p])
               for k, p in d['guards'])),
+          '/-- which `__init__` compute `linear = not (pad_mode == \'constant\' and pad_const != 0)` -/',
+          'def affineAware : Kind → Bool'] + [
+              '  | .{} => {}'.format(k, 'true' if d['flags'][c]['affine_aware'] else 'false')
+              for c, k in CLASSES.items()] + [
+          '/-- which `.adjoint` start with `if not self.is_linear: raise ValueError` -/',
+          'def adjGuarded : Kind → Bool'] + [
+              '  | .{} => {}'.format(k, 'true' if d['flags'][c]['adj_guarded'] else 'false')
+              for c, k in CLASSES.items()] + [
           '/-- pad modes `Laplacian.__init__` refuses -/',
           'def lapRejected : List Pad := [{}]'.format(', '.join(
               '.' + PADS[p] for p in d['lap_rejected'])),
@@ -470,4 +541,14 @@ def regenerate(repo=None):
 
 
 if __name__ == '__main__':
-    print(extract())
+    import sys
+    if '--write-pins' in sys.argv:
+        # deliberate, manual step after the hand-written model was brought in line with the code
+        import json
+        with open(os.path.join(core.REPO, 'odl', 'discr', 'diff_ops.py')) as f:
+            pins, _ = current_pins(ast.parse(f.read()))
+        with open(PINS_FILE, 'w') as f:
+            json.dump(pins, f, indent=1)
+        print('wrote', PINS_FILE)
+    else:
+        print(extract())
